@@ -312,8 +312,17 @@ impl<'a> MacroPass<'a> {
                     bump(self.counts, "R6.format_concat");
                     Some(syn::parse_quote!(vx_concat(vec![#(#parts),*])))
                 } else {
+                    // the text is opaque, but the arguments are still evaluated (by reference), so `?` / calls inside them stay
                     bump(self.counts, "R6.format_opaque");
-                    Some(syn::parse_quote!(vx_msg()))
+                    let args: Vec<syn::Expr> = match mac.parse_body_with(syn::punctuated::Punctuated::<syn::Expr, syn::Token![,]>::parse_terminated) {
+                        Ok(a) => a.into_iter().skip(1).filter(|e| !matches!(e, syn::Expr::Path(_) | syn::Expr::Lit(_) | syn::Expr::Field(_) | syn::Expr::Assign(_))).collect(),
+                        Err(_) => vec![],
+                    };
+                    if args.is_empty() {
+                        Some(syn::parse_quote!(vx_msg()))
+                    } else {
+                        Some(syn::parse_quote!({ #(let _ = &#args;)* vx_msg() }))
+                    }
                 }
             }
             "panic" | "unreachable" | "unimplemented" | "todo" => {
@@ -808,8 +817,8 @@ impl<'a> VisitMut for ConstCallPass<'a> {
                 if let Some(last) = p.path.segments.last() {
                     let n = last.ident.to_string();
                     if self.cfg.const_calls.iter().any(|c| *c == n) {
-                        let id = last.ident.clone();
-                        *e = syn::parse_quote!(#id());
+                        let path = p.path.clone();
+                        *e = syn::parse_quote!(#path());
                         bump(self.counts, "R12.const_call");
                         return;
                     }
